@@ -100,7 +100,14 @@ type jv struct {
 	ok bool
 }
 
-func enc(j jid.JID) string {
+// enc reads a JID through its accessors; a value whose accessors panic (a
+// corrupt packed representation) is reported as such.
+func enc(j jid.JID) (s string) {
+	defer func() {
+		if recover() != nil {
+			s = "PANIC-IN-ACCESSOR"
+		}
+	}()
 	l, d, r := j.Localpart(), j.Domainpart(), j.Resourcepart()
 	return fmt.Sprintf("%s %d %d", common.HexS(l+d+r), len(l), len(d))
 }
@@ -184,6 +191,10 @@ func domainTrait(d string) string {
 func (c *ctx) canonical(j jid.JID, from []string, how string) {
 	r := c.r
 	e := enc(j)
+	if p := guard(func() { _ = j.String(); _ = j.Bare().String(); _ = j.Domain().String(); _ = j.Equal(j) }); p != "" || e == "PANIC-IN-ACCESSOR" {
+		c.fail("total", "accessors", from, "%s returned a value whose accessors panic: %s", how, p)
+		return
+	}
 	l, d, res := j.Localpart(), j.Domainpart(), j.Resourcepart()
 	// parts valid
 	switch {
@@ -388,6 +399,12 @@ func (c *ctx) hypotheses(l, d, r string) {
 func (c *ctx) str(s string, class string) {
 	r := c.r
 	hs := common.HexS(s)
+	defer func() {
+		// an exported function or accessor panicked outside the guarded calls (a corrupt value)
+		if p := recover(); p != nil {
+			c.fail("total", "panic", []string{r.Prop + " parse " + hs + " " + c.splitOracles(s)}, "panic while examining %q: %v", s, p)
+		}
+	}()
 	r.Line("utf8 "+hs, common.B(utf8.ValidString(s)))
 	// splitting
 	l, d, res, err := jid.SplitString(s)
@@ -446,6 +463,12 @@ func (c *ctx) str(s string, class string) {
 // triple runs everything that starts from three parts.
 func (c *ctx) triple(l, d, res string, class string) {
 	r := c.r
+	defer func() {
+		if p := recover(); p != nil {
+			c.fail("total", "panic", []string{fmt.Sprintf("%s new %s %s %s %s", r.Prop, common.HexS(l), common.HexS(d), common.HexS(res), oracles(l, d, res))},
+				"panic while examining the parts %q %q %q: %v", l, d, res, p)
+		}
+	}()
 	c.hypotheses(l, d, res)
 	var j jid.JID
 	var err error
@@ -566,8 +589,20 @@ func (c *ctx) equalPairs() {
 	for i := 0; i < len(c.pool); i++ {
 		for k := 0; k < 3; k++ {
 			a, b := c.pool[i], c.pool[r.Rnd.Intn(len(c.pool))]
-			if k == 0 {
+			switch k {
+			case 0:
 				b = a.Bare()
+			case 1:
+				// the same bytes cut at other places
+				l, d, res := a.Localpart(), a.Domainpart(), a.Resourcepart()
+				switch r.Rnd.Intn(3) {
+				case 0:
+					b = jid.NewUnsafe(l, d+res, "").JID
+				case 1:
+					b = jid.NewUnsafe("", l+d, res).JID
+				default:
+					b = jid.NewUnsafe(l+d, res, "").JID
+				}
 			}
 			eq := a.Equal(b)
 			r.Line("eq "+enc(a)+" "+enc(b), common.B(eq))
@@ -587,7 +622,7 @@ var locals = []string{"", "a", "A", "user", "USER", "ｕｓｅｒ", "ß", "ẞ",
 	"\xff", "a\xc0\x80", "\xed\xa0\x80", "\x00", "a\x7f", "K", "ẞ", "ǆ", "Ǆ", "ΐ", "ΰ", "ŉ", "ᾼ", "ϓ", "ẛ̣", "ḍ̇", "q̣̇", "Å", "Å", "㎒", "①", "Ⅸ", "ⅸ",
 	strings.Repeat("a", 1023), strings.Repeat("a", 1024), strings.Repeat("é", 511), strings.Repeat("é", 512), strings.Repeat("ẞ", 341), strings.Repeat("ẞ", 342), strings.Repeat("ǰ", 400)}
 
-var domains = []string{"", "a", "b", "example.net", "EXAMPLE.NET", "example.net.", "example.net..", "example.net...", ".", "..", "a.", "a..", ".a", "a..b",
+var domains = []string{"\u2135a", "\u2136.com", "a\u2137", "\u2138z.example", "", "a", "b", "example.net", "EXAMPLE.NET", "example.net.", "example.net..", "example.net...", ".", "..", "a.", "a..", ".a", "a..b",
 	"example。net", "example.net。", "example.net．", "example.net｡", "a｡", "。", "a.。", "a｡.", "ｅｘａｍｐｌｅ.net", "ex­ample.net",
 	"xn--nxasmq6b", "xn--nxasmq6b.", "XN--NXASMQ6B", "xn--bcher-kva.example", "bücher.example", "BÜCHER.example", "bücher.example", "xn--", "xn--.com", "xn--a", "xn--a.com", "xn--fa-hia.de", "faß.de", "FASS.de", "fass.de",
 	"straße.de", "STRASSE.de", "βόλος.com", "βόλοσ.com", "ΒΌΛΟΣ.com", "日本.jp", "日本。jp", "שלום.il", "aא.il", "אa.il", "1א.il", "a‌b.com", "a‍b.com", "न्‍.com",
@@ -708,7 +743,7 @@ func Run(r *common.Run) error {
 	}
 
 	// corpus: past witnesses first
-	for _, s := range []string{"example.com..", "a..", "..", "a@b｡", "a@example.net。/r", "a@b．.", "example.net.", "a@b/c", "a/b@c", "a@b@c", "@b", "a@", "a@b/", "/", "@", ""} {
+	for _, s := range []string{"\u2137z", "\u2136Z\u04ea", "a@\u2135b/r", "example.com..", "a..", "..", "a@b｡", "a@example.net。/r", "a@b．.", "example.net.", "a@b/c", "a/b@c", "a@b@c", "@b", "a@", "a@b/", "/", "@", ""} {
 		c.str(s, "corpus")
 	}
 	for _, t := range [][3]string{{"", "example.com..", ""}, {"a", "b｡", "r"}, {"a", "b", "r"}, {"", "b", ""}, {"A", "B.", "R"}, {"a@", "b", ""}, {"", "[::1]", "r"}} {
